@@ -33,8 +33,9 @@ Fixpoint new_total (ds : script) : nat :=
   | (_, n) :: r => n + new_total r
   end.
 
-(* canonical shape: no empty run; a deletion only directly after an equal run (or at the start); an insertion
-   never directly after an insertion.  Hence between two equal runs: nothing, D, I or D I. *)
+(* canonical shape: a deletion only directly after an equal run (or at the start); an insertion never directly
+   after an insertion.  Hence between two equal runs: nothing, D, I or D I.  Runs may be empty: DiffCleanupMerge of
+   go-diff v1.0.0 does emit empty runs now and then (e.g. "d1 i0"), and the property does not forbid them. *)
 Definition follows (p o : op) : bool :=
   match p, o with
   | _, Equal => true
@@ -46,7 +47,7 @@ Definition follows (p o : op) : bool :=
 Fixpoint canon (p : op) (ds : script) : bool :=
   match ds with
   | [] => true
-  | (o, n) :: r => (0 <? n) && follows p o && canon o r
+  | (o, _) :: r => follows p o && canon o r
   end.
 Definition canonical (ds : script) : bool := canon Equal ds.
 
@@ -70,7 +71,7 @@ Section Validator.
     match ds with
     | [] => null old && null new
     | (o, n) :: r =>
-        (0 <? n) && follows p o &&
+        follows p o &&
         match o with
         | Equal => eq_prefix n old new && walk Equal (skipn n old) (skipn n new) r
         | Delete => (n <=? length old) && walk Delete (skipn n old) new r
